@@ -16,6 +16,7 @@ Lemma stream_primitive_bodies_as_reviewed :
    ("GetStream", "e42b50c02f88d2b2");
    ("GetStreamModuleAccount", "1e46ade0d603f10c");
    ("IsStream", "c1bd12c927b786ea");
+   ("IterateAllStreams", "ef38f709a1ff4913");
    ("SetParams", "73bc5d17b364b792");
    ("SetStream", "b36316b842b0ebd9")].
 Proof. reflexivity. Qed.
